@@ -275,3 +275,36 @@ func fileJSON(e *core.Env, text string) (records []any, nerr int, recordsNull bo
 	}
 	return recs, len(errsArr), rnull, "", true
 }
+
+// plainText renders a document in the plainest style there is: dash dates, one blank between records, four spaces,
+// LF, " - " in ranges, a single placeholder. The values (and their clock convention) and all summary text stay.
+func plainText(doc *ref.Doc) string {
+	var sb strings.Builder
+	for i := range doc.Recs {
+		rc := &doc.Recs[i]
+		if i > 0 {
+			sb.WriteString("\n")
+		}
+		sb.WriteString(ref.FormatDate(rc.Date, true))
+		if rc.Should != nil {
+			sb.WriteString(" (" + ref.FormatPlainDuration(*rc.Should) + "!)")
+		}
+		sb.WriteString("\n")
+		for _, l := range rc.Summary {
+			sb.WriteString(l + "\n")
+		}
+		for k := range rc.Entries {
+			en := rc.Entries[k]
+			en.DashSpaces, en.ExtraQ = true, 0
+			line := "    " + en.ValueText()
+			if len(en.Summary) > 0 && en.Summary[0] != "" {
+				line += " " + en.Summary[0]
+			}
+			sb.WriteString(line + "\n")
+			for j := 1; j < len(en.Summary); j++ {
+				sb.WriteString("        " + en.Summary[j] + "\n")
+			}
+		}
+	}
+	return sb.String()
+}
